@@ -15,7 +15,8 @@ Theorem ok_iff :
     a_status (handle auth p raw c au hp o) = 200 <->
     (exists fa, gate auth p (auth_info raw) = Allow fa)
     /\ match dispatch c au with
-       | RHealth | RUdp | RIcmp => True
+       | RHealth | RUdp => True
+       | RIcmp => o = COk          (* the ICMP forwarder is set up and made a multiplexer *)
        | RRefused => False
        | RConnect => au <> None /\ (c = true -> hp = true) /\ o = COk
        end.
@@ -25,7 +26,8 @@ Proof.
   - destruct (dispatch c au) eqn:D; cbn.
     + split; [intros _; split; [eauto|exact I]|reflexivity].
     + split; [intros _; split; [eauto|exact I]|reflexivity].
-    + split; [intros _; split; [eauto|exact I]|reflexivity].
+    + change ICMP_REFUSED_WHEN_NOT_SET_UP with true. cbn iota.
+      destruct o; cbn; split; try discriminate; try (intros [_ H]; discriminate); intros _; split; [eauto|reflexivity].
     + split; [discriminate|intros [_ []]].
     + destruct au as [a|]; cbn.
       * destruct c, hp; cbn.
@@ -49,7 +51,7 @@ Theorem auth_failure_iff :
 Proof.
   intros auth p raw c au hp o. unfold handle.
   destruct (gate auth p (auth_info raw)) as [fa| |]; cbn.
-  - split; [|discriminate]. destruct (dispatch c au); cbn; try discriminate.
+  - split; [|discriminate]. destruct (dispatch c au); cbn; try discriminate; try (destruct o; cbn; discriminate).
     destruct au; cbn; try discriminate. destruct (c && negb hp); cbn; try discriminate. destruct o; cbn; discriminate.
   - split; reflexivity.
   - split; discriminate.
